@@ -146,6 +146,8 @@ def make_definition(rnd, name, kind):
     scs = scales(rnd, n)
     if name.endswith("4") and len(scs) >= 2:
         scs[0], scs[1] = F(1, 10 ** 18), F(24, 10 ** 18)
+    if name.endswith("0") or name in ("SynBig", "SynQuot"):
+        scs[-1] = F(1)              # an alias of the reference unit (scale literally 1), see the twin order in corpus()
     if name.endswith("0") or name in ("SynProd",):
         scs[rnd.randrange(len(scs))] = rnd.choice([F(159154943091895336, 10 ** 18), F(277777777777777778, 10 ** 18), F(1570796326794896619, 10 ** 18)])
     for k_sc, sc in enumerate(scs):
@@ -173,6 +175,11 @@ def corpus(seed, k):
     for d in defs:
         order = list(range(len(d.attrs)))
         rnd.shuffle(order)
+        # a unit tied with the reference unit declared *above* #[ref_unit]: the reference unit still comes first
+        alias = [i for i, u in enumerate(d.spec.units) if d.spec.ref is not None and i > 0 and u.scale == 1]
+        if alias and order.index(0) < min(order.index(a) for a in alias):
+            p0, p1 = order.index(0), order.index(alias[0])
+            order[p0], order[p1] = order[p1], order[p0]
         twins.append((d, order))
     refs = [d for d in defs if d.spec.ref is not None and len(d.spec.units) > 1]
     derived = []
